@@ -2,5 +2,19 @@ import FontVerif.DriverMain
 import FontVerif.Drv.C01
 import FontVerif.Drv.C01Iter
 import FontVerif.Drv.C01Hand
+import FontVerif.Drv.C01HandGlyf
+import FontVerif.Drv.C01HandVar
+import FontVerif.Drv.C01HandLayout
+import FontVerif.Drv.C01HandColr
+import FontVerif.Drv.C01HandBitmap
+import FontVerif.Drv.C01HandText
+import FontVerif.Drv.C01HandAat
 
-def main : IO Unit := FontVerif.driverMain [FontVerif.Drv.C01.handle, FontVerif.Drv.C01Iter.handle, FontVerif.Drv.C01Hand.handle]
+def main : IO Unit := FontVerif.driverMain [FontVerif.Drv.C01.handle, FontVerif.Drv.C01Iter.handle, FontVerif.Drv.C01Hand.handle,
+  FontVerif.Drv.C01HandGlyf.handle,
+  FontVerif.Drv.C01HandVar.handle,
+  FontVerif.Drv.C01HandLayout.handle,
+  FontVerif.Drv.C01HandColr.handle,
+  FontVerif.Drv.C01HandBitmap.handle,
+  FontVerif.Drv.C01HandText.handle,
+  FontVerif.Drv.C01HandAat.handle]
